@@ -17,6 +17,11 @@
    collections are put in order by a stable insertion sort on ranks.  Any
    enumeration order L of a duplicate-free collection is realised by taking L
    itself as the order, so quantifying over omega covers every iteration order.
+
+   State of the code modelled: with the repairs C13-sort-before-use (every collection is sorted by
+   name before use: [repaired]), C12-fix-dedup (one listener per event name, first emit site wins),
+   C07-4 (event payload types bring their field types), C10-5 (Zod enums get a type alias).
+   [gen_raw] is the pipeline as a function of the orders it is handed; [gen] hands it the sorted ones.
    No proofs in this file. *)
 From Coq Require Import List Arith Bool.
 Require Import TT.Model.Base TT.Model.Topo.
@@ -41,7 +46,8 @@ Definition order_by {A : Type} (key : A -> name) (w : list name) (l : list A) : 
 Definition ident (n : name) : name := n.
 
 (* ---------- projects ---------- *)
-Record ev := { e_name : name; e_roots : list name }.
+(* e_pay: the payload type as written (opaque id; e_roots are the custom names it mentions) *)
+Record ev := { e_name : name; e_roots : list name; e_pay : nat }.
 (* c_roots: custom type names mentioned by parameters, return type and channel
    message types; c_params: at least one ordinary parameter; c_chans: at least
    one Channel parameter *)
@@ -94,10 +100,10 @@ Definition reach_list (g : Topo.graph name) (roots : list name) : list name :=
 (* resolve_types_lazily: everything defined that is reachable from the harvested names *)
 Definition discovered (idx : list tdef) (p : project) : list name :=
   filter (defined idx) (reach_list (dep_graph idx) (cmd_roots p ++ ev_roots p)).
-(* collect_used_types (closure from the commands) plus the event payload types themselves *)
+(* collect_used_types (closure from the commands) plus the closure from the event payload types
+   (discover_nested_dependencies is applied to them as well since C07-4) *)
 Definition used (idx : list tdef) (p : project) : list name :=
-  let from_cmds := filter (defined idx) (reach_list (dep_graph idx) (cmd_roots p)) in
-  from_cmds ++ filter (fun n => defined idx n && negb (memb n from_cmds)) (nodup Nat.eq_dec (ev_roots p)).
+  filter (defined idx) (reach_list (dep_graph idx) (cmd_roots p ++ ev_roots p)).
 
 (* dependencies[t] in its iteration order *)
 Definition w_dep_list (w : omega) (n : name) : list name :=
@@ -120,14 +126,14 @@ Inductive decl :=
 | DPSchema (c : name)                (* zod: <Cmd>ParamsSchema *)
 | DHooks                             (* zod: CommandHooks *)
 | DWrapper (c : name)
-| DListener (e : name)
+| DListener (e : name) (pay : nat)    (* listener for event e with payload type pay *)
 | DReexport (k : nat).               (* index.ts: 0 types, 1 commands, 2 events *)
 
 Definition type_decls_plain (idx : list tdef) (ns : list name) : list decl :=
   flat_map (fun n => match lookup idx n with Some d => [DType n (t_body d)] | None => [] end) ns.
 Definition type_decls_zod (idx : list tdef) (ns : list name) : list decl :=
   flat_map (fun n => match lookup idx n with
-                     | Some d => if t_enum d then [DSchema n (t_body d)] else [DSchema n (t_body d); DInfer n]
+                     | Some d => [DSchema n (t_body d); DInfer n]
                      | None => [] end) ns.
 Definition param_decl (c : cmd) : list decl := if c_params c || c_chans c then [DParams (c_name c)] else [].
 Definition pschema_decl (c : cmd) : list decl := if c_params c then [DPSchema (c_name c)] else [].
@@ -140,13 +146,20 @@ Definition types_file (zod : bool) (w : omega) (p : project) : list decl :=
   else type_decls_plain idx (order_by ident (w_used w) (used idx p)) ++ flat_map param_decl cs.
 Definition commands_file (zod : bool) (w : omega) (p : project) : list decl :=
   (if zod then [DHooks] else []) ++ map (fun c => DWrapper (c_name c)) (commands w p).
+(* create_event_contexts: one listener per distinct event name, the first emit site wins *)
+Fixpoint dedup_events (seen : list name) (es : list ev) : list ev :=
+  match es with
+  | [] => []
+  | e :: r => if memb (e_name e) seen then dedup_events seen r else e :: dedup_events (e_name e :: seen) r
+  end.
+Definition listener_decl (e : ev) : decl := DListener (e_name e) (e_pay e).
 Definition events_file (w : omega) (p : project) : option (list decl) :=
-  match events w p with [] => None | es => Some (map (fun e => DListener (e_name e)) es) end.
+  match events w p with [] => None | es => Some (map listener_decl (dedup_events [] es)) end.
 Definition index_file (w : omega) (p : project) : list decl :=
   [DReexport 0; DReexport 1] ++ match events w p with [] => [] | _ => [DReexport 2] end.
 
 (* run_generate: nothing is written when no command was found *)
-Definition gen (zod : bool) (w : omega) (p : project) : option output :=
+Definition gen_raw (zod : bool) (w : omega) (p : project) : option output :=
   match commands w p with
   | [] => None
   | _ => Some {| o_types := types_file zod w p; o_commands := commands_file zod w p;
@@ -161,7 +174,7 @@ Record vizout := { v_cmds : list name;                       (* command entry po
                    v_types : list (name * list name);        (* txt: discovered types with their depends-on lists *)
                    v_nodes : list name;                      (* dot: type nodes *)
                    v_edges : list (name * name) }.           (* dot: type -> dependency edges *)
-Definition viz (w : omega) (p : project) : vizout :=
+Definition viz_raw (w : omega) (p : project) : vizout :=
   let idx := index w p in let ds := discovered idx p in
   {| v_cmds := map c_name (commands w p);
      v_types := map (fun n => (n, dep_order w n (succs idx n))) (order_by ident (w_res w) ds);
@@ -180,41 +193,21 @@ Definition repaired (w : omega) (p : project) : omega :=
      w_used := ns (w_used w); w_req := ns (w_req w);
      w_deps := map (fun n => (n, ns (w_dep_list w n))) (ns (w_dmap w));
      w_res := ns (w_res w); w_dmap := ns (w_dmap w) |}.
-Definition gen_fixed (zod : bool) (w : omega) (p : project) : option output := gen zod (repaired w p) p.
+(* the code as patched: hash orders w arrive, sorted orders are used *)
+Definition gen (zod : bool) (w : omega) (p : project) : option output := gen_raw zod (repaired w p) p.
+Definition viz (w : omega) (p : project) : vizout := viz_raw (repaired w p) p.
 
 (* ---------- known classes (boolean, shared by theorems and the run-time matcher) ---------- *)
-Definition count_files (h : file -> bool) (p : project) : nat := length (filter h p).
-Definition nonnil {A} (l : list A) : bool := match l with [] => false | _ => true end.
 Fixpoint has_dup (l : list name) : bool :=
   match l with [] => false | x :: r => memb x r || has_dup r end.
 
-(* two files define a type of the same name (last definition in hash order wins) *)
+(* Two files define a type of the same name: the definition in the last file (in sorted path order)
+   is emitted, so moving a definition to another file can change the content. *)
 Definition all_types (p : project) : list tdef := flat_map file_types p.
 Definition kf_dupdef (p : project) : bool := has_dup (map t_name (all_types p)).
 
-(* commands.ts: at least two files contain commands *)
-Definition kf_cmd_files (p : project) : bool := Nat.leb 2 (count_files (fun f => nonnil (file_cmds f)) p).
-(* events.ts: at least two files contain emit calls *)
-Definition kf_ev_files (p : project) : bool := Nat.leb 2 (count_files (fun f => nonnil (file_events f)) p).
-(* Params declarations in types.ts follow the command order *)
-Definition kf_param_files (p : project) : bool :=
-  Nat.leb 2 (count_files (fun f => nonnil (flat_map param_decl (file_cmds f))) p).
-(* plain types.ts: at least two used types (HashMap order) *)
-Definition kf_used2 (p : project) : bool := Nat.leb 2 (length (used (all_types p) p)).
-(* zod types.ts: two used types not strictly ordered by reachability (incomparable, or on a common cycle) *)
-Definition reaches (idx : list tdef) (a b : name) : bool := memb b (reach_list (dep_graph idx) [a]).
-Definition kf_zod_unordered (p : project) : bool :=
-  let idx := all_types p in let u := used idx p in
-  existsb (fun a => existsb (fun b => negb (Nat.eqb a b) && Bool.eqb (reaches idx a b) (reaches idx b a)) u) u.
-
-Definition kf_types (zod : bool) (p : project) : bool :=
-  kf_param_files p || (if zod then kf_zod_unordered p else kf_used2 p).
-Definition kf_order (zod : bool) (p : project) : bool := kf_cmd_files p || kf_ev_files p || kf_types zod p.
-(* the class used by the theorem for zod types.ts today (see C13.v: the narrower kf_zod_unordered is the
-   run-time class; the theorem under it is kept as a full statement) *)
-Definition kf_types_thm (zod : bool) (p : project) : bool := kf_param_files p || kf_used2 p.
-
-(* dependency-graph.txt / .dot: at least two discovered types, or a type with two dependencies *)
-Definition kf_viz (p : project) : bool :=
-  let idx := all_types p in let ds := discovered idx p in
-  kf_cmd_files p || Nat.leb 2 (length ds) || existsb (fun n => Nat.leb 2 (length (nodup Nat.eq_dec (succs idx n)))) ds.
+(* One event name is emitted with two different payload types: the listener is typed after the first
+   emit site in sorted file order / item order, so reordering or moving functions can change it. *)
+Definition kf_dupevent (p : project) : bool :=
+  let es := flat_map file_events p in
+  existsb (fun a => existsb (fun b => Nat.eqb (e_name a) (e_name b) && negb (Nat.eqb (e_pay a) (e_pay b))) es) es.
